@@ -315,7 +315,7 @@ def _neutralise_dead(w):
         t = w.blocks[x]["term"]
         nxt = []
         for f in _BB_FIELDS:
-            if isinstance(t.get(f), int):
+            if f != "imaginary" and isinstance(t.get(f), int):      # imaginary edges are never taken
                 nxt.append(t[f])
         if isinstance(t.get("unwind"), int):
             nxt.append(t["unwind"])
@@ -364,6 +364,38 @@ class InlinedFacts:
     def all_bodies(self):
         for b in self.orig.all_bodies():
             yield self.view(b)
+
+    def absorbed(self, body):
+        """the body is a helper (or the coroutine of an async helper) every call site of which was inlined into its
+        callers: its obligations are discharged where it is used, analysing it stand-alone would only lose context"""
+        if getattr(self, "_absorbed", None) is None:
+            inl_sites, call_sites = {}, {}
+            for b in self.orig.all_bodies():
+                v = self.view(b)
+                for blk in v.blocks:
+                    t = blk["term"]
+                    m = t.get("inl_call")
+                    if m:
+                        inl_sites[m["callee"]] = inl_sites.get(m["callee"], 0) + 1
+                    if t["k"] == "call":
+                        f = t["func"]
+                        fn = f["const"]["fn"] if "const" in f and "fn" in f["const"] else None
+                        if fn:
+                            for d in (fn.get("def"), fn.get("resolved")):
+                                if d:
+                                    call_sites[d] = call_sites.get(d, 0) + 1
+            ab = set()
+            for d, n in inl_sites.items():
+                ob = self.orig.bodies.get(d)
+                if ob is None:
+                    continue
+                target = ob.parent if ob.kind == "coroutine" else d
+                if call_sites.get(target, 0) == 0:
+                    ab.add(d)
+                    if ob.kind == "coroutine":
+                        ab.add(ob.parent)
+            self._absorbed = ab
+        return body.def_ in self._absorbed
 
     def view(self, b):
         k = id(b)
